@@ -228,6 +228,16 @@ def run_wfault(case, s, h):
         clean = (not dev.failed) and err is None
         v, outs = judge(s, image, plain, c2, label, clean, completeness=True)
         viol += v
+    elif case["mode"] == "chunked":
+        # every write was a legal (possibly short) write and was acknowledged: the image must be the complete stream
+        if err is not None:
+            viol.append(("C04:%s:raises-on-legal-short-writes:%s" % (label, type(err).__name__), case, {"error": repr(err)[:200]}))
+            outs = ["raise"]
+        else:
+            if image != s["raw"]:
+                viol.append(("C04:%s:acknowledged-but-image-differs" % label, case, {"image_len": len(image), "expected_len": len(s["raw"])}))
+            v, outs = judge(s, image, len(s["raw"]), case, label, True, completeness=True)
+            viol += v
     elif case["mode"] == "raise":
         if not s["raw"].startswith(image) and dev.failed:
             viol.append(("C04:%s:image-not-a-prefix" % label, case, {"image_len": len(image)}))
@@ -298,6 +308,9 @@ def cases(tier):
                             continue  # GzipFile over a raw device: io semantics undefined for short raw writes
                         for after in ("crash", "close"):
                             yield {"kind": "wfault", "stream": name, "writer": writer, "i": i, "k": k, "mode": mode, "after": after}
+            if writer != "gzip":
+                for k in (1, 2, 3, 5, 7, 64):
+                    yield {"kind": "wfault", "stream": name, "writer": writer, "i": 0, "k": k, "mode": "chunked", "after": "close"}
             # fault-free baseline (deviation bound 0)
             yield {"kind": "wfault", "stream": name, "writer": writer, "i": None, "k": 0, "mode": "raise", "after": "close"}
 
